@@ -139,3 +139,71 @@ def run(ctx):
     ctx.ob("C21.R4", WR + ":BinaryFileWriter.write_header", "the magic written is the magic checked and is \\0asm", magic_w == [b"\x00asm"] and b"\x00asm" in magic_r, construct="magic", detail="%s / %s" % (magic_w, magic_r))
     ws, rs = ctx.fn(WR, "BinaryFileWriter.write_str"), ctx.fn(RD, "BinaryFileReader.read_str")
     ctx.ob("C21.R4", WR + ":BinaryFileWriter.write_str", "strings are utf-8 with a length prefix on both sides", "encode('utf-8')" in norm(ws) and "decode('utf-8')" in norm(rs) and "write_vu32(len(bb))" in norm(ws), construct="str")
+    _optional_presence(ctx)
+
+
+INT_SINKS = ("write_vu32", "write_vs32", "write_vs64", "write_vu7", "write_vu1", "write_u32")
+
+
+def _int_uses(stmts, xt):
+    """does one of the statements hand `xt` to an integer encoder / integer format"""
+    for s in stmts:
+        for n in ast.walk(s):
+            if isinstance(n, ast.Call) and last_name(n) in INT_SINKS and any(norm(a) == xt for a in n.args):
+                return True
+            if isinstance(n, ast.FormattedValue) and norm(n.value) == xt and n.format_spec is not None and "d" in norm(n.format_spec):
+                return True
+    return False
+
+
+def optional_presence_sites(fn):
+    """(test node, operand text, kind) for every branch whose condition decides whether an integer is written:
+    kind 'is-none' (X is None / X is not None) or 'truthy' (X / not X)"""
+    out = []
+    for n in ast.walk(fn):
+        if not isinstance(n, ast.If):
+            continue
+        t = n.test
+        neg = False
+        while isinstance(t, ast.UnaryOp) and isinstance(t.op, ast.Not):
+            t, neg = t.operand, not neg
+        if isinstance(t, ast.Compare) and len(t.ops) == 1 and isinstance(t.ops[0], (ast.Is, ast.IsNot)) and norm(t.comparators[0]) == "None":
+            xt = norm(t.left)
+            if _int_uses(n.body + n.orelse, xt):
+                out.append((n, xt, "is-none"))
+        elif isinstance(t, (ast.Name, ast.Attribute)):
+            xt = norm(t)
+            if _int_uses(n.body + n.orelse, xt):
+                out.append((n, xt, "truthy"))
+    return out
+
+
+def _optional_presence(ctx):
+    ctx.rule("C21.R5", "an optional integer field (limits maximum) is present iff it `is not None`: its presence is never decided by truthiness, which would drop a declared maximum of 0", floor=3)
+    ctl = ast.parse("def w(self, min, max):\n    if max:\n        self.write_vu32(max)\n    if self.m.max is not None:\n        self.emit(f'{self.m.max:d}')\n")
+    ctx.need(sorted(k for _, _, k in optional_presence_sites(ctl)) == ["is-none", "truthy"], "C21.R5 positive control lost")
+    n = 0
+    sites = []
+    for rel in (WR, "ppci/wasm/text/writer.py", CO):
+        mod = ctx.project.module(rel)
+        for fn in [f for f in ast.walk(mod.tree) if isinstance(f, ast.FunctionDef)]:
+            for node, xt, kind in optional_presence_sites(fn):
+                sites.append((rel, fn, node, xt, kind))
+    # which integer fields are optional (None = absent): those tested against None somewhere, and constructor parameters defaulting to None
+    optional = {xt.split(".")[-1] for _, _, _, xt, kind in sites if kind == "is-none"}
+    for c in ast.walk(ctx.project.module(CO).tree):
+        if isinstance(c, ast.FunctionDef) and c.name == "_from_args":
+            for a, d in zip(reversed(c.args.args), reversed(c.args.defaults)):
+                if isinstance(d, ast.Constant) and d.value is None:
+                    optional.add(a.arg)
+    ctx.extra["optional_int_fields"] = sorted(optional)
+    for rel, fn, node, xt, kind in sites:
+        if kind == "truthy" and xt.split(".")[-1] not in optional:
+            continue   # an integer whose absence means 0 (e.g. a memarg offset): omitting 0 loses nothing
+        n += 1
+        ctx.ob("C21.R5", "%s:%s" % (rel, fn.name), "the presence of the optional `%s` is tested with `is None` before it is written as an integer" % xt, kind == "is-none", construct="presence:%s:%s" % (fn.name, xt), node=node, detail=norm(node.test))
+    ctx.need(n >= 3, "optional integer fields of the wasm writers not found (%d)" % n)
+    rl = ctx.fn(RD, "BinaryFileReader.read_limits")
+    txt = norm(rl)
+    ok = "maximum = None" in txt and any(isinstance(r, ast.Return) and isinstance(r.value, ast.Tuple) and len(r.value.elts) == 2 for r in ast.walk(rl))
+    ctx.ob("C21.R5", RD + ":BinaryFileReader.read_limits", "the reader yields None exactly when the flag byte says no maximum follows", ok, construct="reader-none")
